@@ -22,8 +22,11 @@ ASSUMPTIONS = ["the tie between the table and the code is the translator (tools/
                "methods are followed with the caller's locks; lambdas run inline except those passed to set_*handler / set_*builder, "
                "which are the session threads' entry points; control entry points are the Node methods ControlServer.cpp and "
                "main.cpp call, assumed to be called under node_mutex",
-               "not seen by the translator: accesses through references or pointers that outlive the lock's scope, state inside "
-               "member objects reached without going through a Node method, threads other than session and control / tick (NAT, relay client)",
+               "a local pointer / reference / iterator initialised from (or assigned) an expression that mentions a field points into "
+               "that field: every later use of it in the method is an access to the field under the locks held at the use (so a "
+               "pointer that escapes its lock's scope is seen); not seen: pointers handed to other functions or stored in members, "
+               "state inside member objects reached without going through a Node method, threads other than session and control / tick "
+               "(NAT, relay client)",
                "fields whose own type synchronises (std::atomic, a class with its own mutex) are left out; that those classes use "
                "their mutex correctly is not examined",
                "no thread is run: ThreadSanitizer on a stress harness (two session threads against control-role calls) showed only "
